@@ -1464,3 +1464,72 @@ def c20_p(ctx):
     if n < 3:
         ctx.undecided('expected at least 3 stores of batch results into the chain state, found '
                       '{}'.format(n))
+
+
+@obligation('C20-q', 'T8 T13', 'the chain state is carried forward as a whole: every per-step slot '
+            'whose previous entry some step reads is copied from the previous step at every '
+            'place where a candidate is rejected', floor=5,
+            necessary='a rejected candidate leaves the chain where it was; a slot that one '
+                      'rejection site copies and another does not (or that the step reads at '
+                      'n - 1 but no rejection copies) holds its initial value after that '
+                      'rejection, and the next Metropolis-Hastings ratio is computed against a '
+                      'state the chain is not in')
+def c20_q(ctx):
+    cls = ctx.cls(_BSLC)
+    p_prev = pattern("self.state[_k][_i - 1]")
+    p_slot = pattern("self.state[_k][_i]")
+    blocks = {}      # id(statement list) -> (method, first stmt, {key: stmt})
+    carry_values = set()
+    prev_reads = {}  # key -> (method, node)
+
+    def stmt_lists(node):
+        for n in ast.walk(node):
+            for f in ('body', 'orelse', 'finalbody'):
+                b = getattr(n, f, None)
+                if isinstance(b, list) and b and isinstance(b[0], ast.stmt):
+                    yield b
+
+    for m in cls.methods.values():
+        ex = ctx.ex(m)
+        for body in stmt_lists(m.node):
+            for s in body:
+                if not (isinstance(s, ast.Assign) and len(s.targets) == 1 and
+                        isinstance(s.targets[0], ast.Subscript)):
+                    continue
+                bt = match(ex.term(s.targets[0]), p_slot)
+                bv = match(ex.term(s.value), p_prev)
+                if bt is None or bv is None or bt['k'] != bv['k'] or bt['i'] != bv['i']:
+                    continue
+                if bt['k'][0] != 'const':
+                    continue
+                blocks.setdefault(id(body), (m, body[0], {}))[2][bt['k'][1]] = s
+                carry_values.add(id(s.value))
+    for m in cls.methods.values():
+        ex = ctx.ex(m)
+        for n in own_nodes(m.node):
+            if not (isinstance(n, ast.Subscript) and isinstance(n.ctx, ast.Load)):
+                continue
+            if id(n) in carry_values:
+                continue
+            b = match(ex.term(n), p_prev)
+            if b is None or b['k'][0] != 'const':
+                continue
+            prev_reads.setdefault(b['k'][1], (m, n))
+    if len(blocks) < 2 or len(prev_reads) < 3:
+        ctx.undecided('expected at least two rejection sites that copy the previous chain state and '
+                      'three slots read at the previous step, found {} / {}'.format(
+                          len(blocks), sorted(prev_reads)))
+        return
+    carried_somewhere = set()
+    for (_m, _s, ks) in blocks.values():
+        carried_somewhere |= set(ks)
+    for (m, first, ks) in blocks.values():
+        for key in sorted(set(prev_reads) | carried_somewhere):
+            why = ('read at the previous step by ' + prev_reads[key][0].name) \
+                if key in prev_reads else 'copied at another rejection site'
+            ctx.check(key in ks, m, "rejection copies state['{}']".format(key),
+                      "state['{0}'][n] = state['{0}'][n - 1] ({1})".format(key, why),
+                      "the rejection branch at line {} copies {} from the previous step but not "
+                      "state['{}'], which is {}: after this rejection the chain's slot holds its "
+                      'initial value'.format(first.lineno, sorted(ks), key, why), fn=m,
+                      node=ks.get(key, first))
